@@ -38,6 +38,10 @@ FAMILIES = [
     ("fn-cycle", -1, True, [1, 2, 3, 4], lambda k: "".join("#fn f%d(x) => f%d(x)\n" % (i, (i + 1) % k) for i in range(k)) + "#d8 f0(1)\n"),
     ("asm-cycle", -1, True, [1, 2, 3, 4], lambda k: "#ruledef\n{\n" + "".join("    m%d {x} => asm { m%d {x} }\n" % (i, (i + 1) % k) for i in range(k)) + "}\nm0 1\n"),
     ("subrule-cycle", -1, True, [1, 2, 3, 4], lambda k: "".join("#subruledef s%d\n{\n    {x: s%d} => x\n}\n" % (i, (i + 1) % k) for i in range(k)) + "#ruledef\n{\n    t {x: s0} => x\n}\nt 1\n"),
+    ("concat-doubling", -1, False, [4, 10, 20, 24, 26, 27, 28, 30, 34, 40, 64],
+     lambda n: "a0 = 0xff\n" + "".join("a%d = a%d @ a%d\n" % (i, i - 1, i - 1) for i in range(1, n + 1))),
+    ("shl-doubling", -1, False, [4, 10, 20, 26, 28, 30, 34, 40, 64],
+     lambda n: "a0 = 1\n" + "".join("a%d = a%d << (1 << %d)\n" % (i, i - 1, i) for i in range(1, n + 1))),
     ("rule-fn-cycle", -1, True, [1, 2], lambda k: "#fn f(x) => asm { m {x} }\n#ruledef\n{\n    m {x} => f(x)\n}\nm 1\n"),
     ("include-cycle", -1, True, [1, 2, 3, 4], None),
 ]
@@ -63,6 +67,8 @@ POW_FAMILIES = [
     ("incbin-size", lambda e: "#d incbin(\"data.bin\", 1, %s)\n" % e),
     ("inchexstr-start", lambda e: "#d inchexstr(\"data.hex\", %s)\n" % e),
     ("string-repeat", lambda e: "x = strlen(\"a\") << %s\n" % e),
+    ("bits-res", lambda e: "#bankdef b\n{\n    #bits %s\n    #outp 0\n}\n#res 0xffff_ffff\n" % e),
+    ("bits-data", lambda e: "#bankdef b\n{\n    #bits %s\n    #outp 0\n}\n#d8 1\nl:\n#d8 l\n" % e),
     # the same indices where sizes are computed statically (rule productions)
     ("slice-left-static", lambda e: "#ruledef\n{\n    t {x} => x[%s:0]\n}\nt 1\n" % e),
     ("slice-concat-static", lambda e: "#ruledef\n{\n    t {x} => x[%s:0] @ x[%s:0]\n}\nt 1\n" % (e, e)),
